@@ -245,10 +245,12 @@ class UniformMeshGenerator:
         )
         # combine all mesh points using all material boundaries as anchors with top preference
         # top vs. bottom preference is somewhat arbitrary here
+        # the bottom of the core (z=0) bounds the first mesh cell, so it takes part as an anchor: the
+        # first cell must respect the minimum mesh size like every other one
         combinedMesh = self._filterMesh(
-            list(set(meshWithBottoms + meshWithTops)),
+            list(set(meshWithBottoms + meshWithTops + [0.0])),
             self.minimumMeshSize,
-            materialAnchors,
+            materialAnchors + [0.0],
             preference="top",
         )
 
